@@ -113,7 +113,7 @@ def queue_head(F, R):
     poll = F.one(r'^<io::Dispatcher<P, C, U, E> as std::future::Future>::poll$')
     arms = variant_edges(F, poll, c07.ST)
     stop_reg = arm_region(poll, arms.get('Stop', []))
-    pe = [(bi, t) for bi, t in poll.calls_to(IO_ENCODE)]
+    pe = [(bi, t) for bi, t, via in F.sites_in_family(poll, IO_ENCODE)]
     R.ob('C04.queue-head', 'poll|encode-sites', len(pe) == 1 and all(bi in stop_reg for bi, t in pe), 'the only write in poll() must be the control answer in the Stop arm (found %d)' % len(pe))
     return cs
 
